@@ -5,6 +5,7 @@ CONSTANTS
   ChunkSize = 2
   Emit = FALSE
   Broken = "none"
+  Classes = "local"
 INVARIANTS ResultIsMergeOfSucceededInOrder OneErrorPerFailure FailsIffGroupEmpty NoReadBeforeBarrier
 PROPERTIES Terminates
 CHECK_DEADLOCK FALSE
